@@ -30,6 +30,9 @@ type scEvent struct {
 	HasSC   bool `json:"has_shortcut"`
 	// Engine: a network engine holding only this rule reports it for the request
 	Engine bool `json:"engine"`
+	// Used: a rule object that has answered other requests before - the same request, and the request of the other kind
+	// (web / hostname) for the same name - gives the same answer as the fresh one
+	Used bool `json:"used"`
 	// Hostreq / Hostname: the request is the hostname request of a DNS query for this name
 	Hostreq  bool  `json:"hostreq"`
 	Hostname []int `json:"hostname"`
@@ -104,7 +107,7 @@ func scRequest(url string) *rules.Request {
 	return rules.NewRequest(url, "", rules.TypeOther)
 }
 
-func scObserve(text, url string) (with, without, lowerOK, hasSC, engine bool, kept string, pv string) {
+func scObserve(text, url string) (with, without, lowerOK, hasSC, engine, used bool, kept string, pv string) {
 	pv = safeCall(func() {
 		r1, err := rules.NewNetworkRule(text, 1)
 		if err != nil {
@@ -118,6 +121,18 @@ func scObserve(text, url string) (with, without, lowerOK, hasSC, engine bool, ke
 		lowerOK = q.URLLowerCase == strings.ToLower(q.URL)
 		with = r1.Match(q)
 		without = r2.Match(scRequest(url))
+		// a rule object is asked again and again by an engine: what it answered before must not colour the next answer
+		r3, _ := rules.NewNetworkRule(text, 1)
+		if h, ok := strings.CutPrefix(url, "hostname:"); ok {
+			_ = r3.Match(rules.NewRequest("http://"+h, "", rules.TypeOther))
+		} else if q.Hostname != "" {
+			_ = r3.Match(rules.NewRequestForHostname(q.Hostname))
+			if q.URL == "http://"+q.Hostname {
+				_ = r3.Match(rules.NewRequest("https://"+q.Hostname, "", rules.TypeOther))
+			}
+		}
+		_ = r3.Match(scRequest(url))
+		used = r3.Match(scRequest(url))
 		// ... and through the index of a network engine that holds nothing but this rule (unless a list would not read
 		// this text as a network rule at all: "name.example" alone on a line is a hosts entry)
 		if lr, lerr := rules.NewRule(text, 1); lerr != nil || lr == nil {
@@ -176,7 +191,7 @@ func cmdDriveShortcut(args []string) error {
 	fromLists := len(pats)
 	labelPats := map[string]bool{}
 	for i := 0; i < n/4; i++ {
-		p := []string{"||", "|http://", "", "", "||"}[rnd.Intn(5)] + fill(rnd, 2+rnd.Intn(5)) + ".example"
+		p := []string{"||", "|http://", "", "", "||", "https://", "|https://", "://"}[rnd.Intn(8)] + fill(rnd, 2+rnd.Intn(5)) + ".example"
 		for k := rnd.Intn(3); k > 0; k-- {
 			p += []string{"^", "*", "/", "/*/", "^*"}[rnd.Intn(5)] + fill(rnd, 1+rnd.Intn(8))
 		}
@@ -232,15 +247,24 @@ func cmdDriveShortcut(args []string) error {
 			vs = append(vs, variant{"hostname-request", "hostname:" + lab + ".example.org"}, variant{"hostname-request", "hostname:sub." + lab + ".example"},
 				variant{"hostname-request", "hostname:" + lab + "x.example.org"})
 		}
+		// the hostname request of a DNS query for the name a URL of the pattern has, and for that name with one more label
+		if hn := scRequest(vs[0].url).Hostname; plainName(hn) {
+			vs = append(vs, variant{"hostname-request", "hostname:" + hn}, variant{"hostname-request", "hostname:www." + hn})
+		}
+		// ... and for the name the pattern itself spells out behind its anchor or scheme (in lower case: "hostname
+		// validation should be performed by the function caller", FillRequestForHostname keeps the name as it is given)
+		if hn := nameOfPattern(p); plainName(hn) && strings.Contains(hn, ".") {
+			vs = append(vs, variant{"hostname-request", "hostname:" + hn}, variant{"hostname-request", "hostname:sub." + hn})
+		}
 		for _, v := range vs {
-			with, without, lowerOK, hasSC, engine, kept, pv := scObserve(text, v.url)
+			with, without, lowerOK, hasSC, engine, used, kept, pv := scObserve(text, v.url)
 			if pv != "" {
 				panics++
 				fmt.Printf("PANIC %q on a %d-byte URL: %s\n", text, len(v.url), pv)
 				continue
 			}
 			ev := scEvent{Text: text, Pat: bytesToInts(p), Mcase: mc, Variant: v.name, URLLen: len(v.url), With: with, Without: without,
-				LowerOK: lowerOK, HasSC: hasSC, Engine: engine, URL: []int{}}
+				LowerOK: lowerOK, HasSC: hasSC, Engine: engine, Used: used, URL: []int{}}
 			if len(kept) <= 160 {
 				ev.URL = bytesToInts(kept)
 			}
@@ -264,12 +288,39 @@ func cmdDriveShortcut(args []string) error {
 	return nil
 }
 
+// nameOfPattern: the run of name characters at the start of the pattern, behind "||", "|", a scheme or "://"
+func nameOfPattern(p string) string {
+	p = strings.TrimLeft(p, "|")
+	for _, sch := range []string{"https://", "http://", "://"} {
+		p = strings.TrimPrefix(p, sch)
+	}
+	n := 0
+	for n < len(p) && (p[n] >= 'a' && p[n] <= 'z' || p[n] >= '0' && p[n] <= '9' || p[n] == '-' || p[n] == '_' || p[n] == '.') {
+		n++
+	}
+	return strings.TrimRight(p[:n], ".")
+}
+
+// plainName: letters, digits, '-', '_' and dots, no empty label
+func plainName(h string) bool {
+	if h == "" || strings.HasPrefix(h, ".") || strings.HasSuffix(h, ".") || strings.Contains(h, "..") {
+		return false
+	}
+	for i := 0; i < len(h); i++ {
+		c := h[i]
+		if !(c >= 'a' && c <= 'z' || c >= 'A' && c <= 'Z' || c >= '0' && c <= '9' || c == '-' || c == '_' || c == '.') {
+			return false
+		}
+	}
+	return true
+}
+
 // vh replay-shortcut text=<rule> url=<url>: one observation, printed
 func cmdReplayShortcut(args []string) error {
 	m := argMap(args)
-	with, without, lowerOK, hasSC, engine, kept, pv := scObserve(m["text"], m["url"])
-	summary(map[string]any{"with": with, "without": without, "lower_ok": lowerOK, "has_shortcut": hasSC, "engine": engine, "kept_len": len(kept), "panic": pv,
-		"differs": with != without || engine != with || !lowerOK || pv != ""})
+	with, without, lowerOK, hasSC, engine, used, kept, pv := scObserve(m["text"], m["url"])
+	summary(map[string]any{"with": with, "without": without, "lower_ok": lowerOK, "has_shortcut": hasSC, "engine": engine, "used": used, "kept_len": len(kept), "panic": pv,
+		"differs": with != without || engine != with || used != with || !lowerOK || pv != ""})
 	return nil
 }
 
